@@ -226,7 +226,8 @@ def Key.isLeaf (k : Key) : Bool := k.counts.length ≤ 1
 /-- insertion sort with a strict "less than" (`std::sort` with that comparator: for a strict weak order the
     sorted sequence is unique up to the order of equivalent elements; the two uses below sort plain strings,
     where equivalent = equal, and pairwise different class strings under the total order `classLt`).
-    Structural recursion, so closed instances of the model reduce in the kernel. -/
+    Structural recursion, so closed instances of the model reduce in the kernel.  That every sorted permutation
+    equals this result is proved: Props/C19Layout `class_sort_is_determined`, `tuple_sort_is_determined`. -/
 def insertBy {α : Type} (lt : α → α → Bool) (a : α) : List α → List α
   | [] => [a]
   | b :: bs => if lt a b then a :: b :: bs else b :: insertBy lt a bs
